@@ -56,8 +56,10 @@ def _mk_solver(timeout_ms: int, mbqi=False):
     s.set("timeout", timeout_ms)
     s.set("smt.mbqi", mbqi is True)
     s.set("smt.auto_config", False)
-    if mbqi == "noeq":
+    if mbqi == "noeq" or (isinstance(mbqi, tuple) and mbqi[0] == "noeq"):
         s.set("smt.solve_eqs", False)
+    if isinstance(mbqi, tuple):          # ("noeq" | "eq", random seed): E-matching order depends on the seed
+        s.set("random_seed", int(mbqi[1]))
     return s
 
 
@@ -99,7 +101,20 @@ def symbols_cached(e) -> frozenset:
     return sy
 
 
-def coi_slice(axioms: List[Any], ob: Obligation, max_hops: int = 0):
+_STR_CACHE: dict = {}
+
+
+def mentions_strings(e) -> bool:
+    k = e.get_id()
+    hit = _STR_CACHE.get(k)
+    if hit is not None and hit[0].eq(e):
+        return hit[1]
+    r = "str." in e.sexpr() or "String" in e.sexpr()
+    _STR_CACHE[k] = (e, r)
+    return r
+
+
+def coi_slice(axioms: List[Any], ob: Obligation, max_hops: int = 0, nostr: bool = False):
     """Cone of influence: keep only hypotheses (and axioms) that share an uninterpreted symbol,
     transitively, with the goal.  Dropping hypotheses is sound for an `unsat` verdict.
     `max_hops` > 0 stops the closure after that many rounds (a still smaller, equally sound slice:
@@ -125,7 +140,7 @@ def coi_slice(axioms: List[Any], ob: Obligation, max_hops: int = 0):
                     changed = True
     s = z3.Solver()
     for k, (p, _) in enumerate(items):
-        if keep[k]:
+        if keep[k] and not (nostr and mentions_strings(p)):      # dropping hypotheses is sound for `unsat`
             s.add(p)
     s.add(z3.Not(ob.goal))
     return s.to_smt2(), sum(keep), len(items)
@@ -260,6 +275,12 @@ def discharge(axioms: List[Any], obs: List[Obligation], timeout_s: int = 30,
                     t, kept, total = coi_slice(axioms, ob, max_hops=hops)
                     jobs.append((ob.oid, t, 3000, False))
                     jobs.append((ob.oid, t, 3000, "noeq"))
+                    if not mentions_strings(ob.goal):
+                        # most goals need no string fact at all, and z3's sequence solver is what makes a query slow and fickle
+                        t2, _, _ = coi_slice(axioms, ob, max_hops=hops, nostr=True)
+                        if t2 != t:
+                            jobs.append((ob.oid, t2, 3000, False))
+                            jobs.append((ob.oid, t2, 3000, "noeq"))
                 except Exception:
                     pass
         for oid, res, dt, model, reason in p.imap_unordered(_worker, jobs, chunksize=4):
@@ -313,6 +334,23 @@ def discharge(axioms: List[Any], obs: List[Obligation], timeout_s: int = 30,
                 ob.time_s += dt
                 if res == "unsat":
                     ob.status, ob.backend = "discharged", tag
+        # E-matching luck: the same sliced queries under other random seeds (an `unsat` is an `unsat` whatever the seed)
+        for seed_ in (11, 23, 47):
+            jobs = []
+            for ob in batch:
+                if ob.status in ("unknown", "error"):
+                    for hops in (3, 0):
+                        try:
+                            t_, _, _ = coi_slice(axioms, ob, max_hops=hops)
+                        except Exception:
+                            continue
+                        jobs.append((ob.oid, t_, int(timeout_s * 250), ("noeq", seed_)))
+                        jobs.append((ob.oid, t_, int(timeout_s * 250), ("eq", seed_)))
+            for oid, res, dt, model, reason in p.imap_unordered(_worker, jobs, chunksize=1):
+                ob = byid[oid]
+                ob.time_s += dt
+                if res == "unsat" and ob.status != "discharged":
+                    ob.status, ob.backend = "discharged", f"z3/slice/seed{seed_}"
         pend = [ob for ob in batch if ob.status in ("unknown", "error")]
         if pend and use_cvc5 and os.path.exists("/usr/bin/cvc5"):
             jobs = [(ob.oid, texts[ob.oid], timeout_s) for ob in pend]
